@@ -172,6 +172,7 @@ class Unit:
         inserts = []     # (mode, anchor, lines)
         rewrites = []    # (old, new, all)
         desugars = {}    # loop ordinal -> iterator name (R11)
+        endloops = {}    # loop ordinal -> ghost lines placed at the end of the loop body (R3)
         cur = None
         for l in block:
             s = l.strip()
@@ -184,6 +185,9 @@ class Unit:
                 mode, anchor = s[3:].split(' ', 1)
                 cur = []
                 inserts.append((mode, anchor.strip(), cur))
+            elif s.startswith('//@endloop '):
+                k = int(s.split()[1])
+                cur = endloops.setdefault(k, [])
             elif s.startswith('//@desugar '):
                 w = s.split()
                 desugars[int(w[1])] = w[2] if len(w) > 2 else 'it__%s' % w[1]
@@ -232,7 +236,7 @@ class Unit:
         if kv.get('attr'):
             pre_attr += '#[%s]\n' % kv['attr'].replace('~', ' ')
         if mode == 'external_body':
-            loop_specs, inserts, desugars = {}, [], {}      # body is dropped (R8)
+            loop_specs, inserts, desugars, endloops = {}, [], {}, {}      # body is dropped (R8)
         # loops
         loops = src.loops(bopen, bclose)
         # R11: `for PAT in EXPR { BODY }` is spelled out as the language defines it (Rust reference,
@@ -268,6 +272,10 @@ class Unit:
             if k < 1 or k > len(loops):
                 raise Lost('fn %s: loop #%d not found (%d loops)' % (name, k, len(loops)))
             ins.append((loops[k - 1][1], '\n' + '\n'.join(spec_lines) + '\n', 'loop#%d' % k))
+        for k, lines_ in endloops.items():
+            if k < 1 or k > len(loops):
+                raise Lost('fn %s: loop #%d not found (%d loops)' % (name, k, len(loops)))
+            ins.append((src.match_brace(loops[k - 1][1]), '\n' + '\n'.join(lines_) + '\n', 'endloop#%d' % k))
         for mode_, anchor, lines_ in inserts:
             nth = None
             mm_ = re.search(r'\s+##(\d+)$', anchor)
